@@ -12,6 +12,42 @@ class C01Episode(Episode):
         w = self.world
         self.fresh_checks = 0
         w.reply_hooks.append(self.on_reply)
+        # reference target: the configured numprocesses as the accepted
+        # incr / decr / set requests leave it (accepted operations are
+        # serialized: applied in the order they were dispatched)
+        self.accepted = []
+        self.target_seen = set()
+        w.reply_hooks.append(self.track_target)
+
+    def track_target(self, r, ent):
+        if r.cmd not in ('incr', 'decr', 'set') or r.idx in self.target_seen \
+                or r.wname is None:
+            return
+        self.target_seen.add(r.idx)
+        o = ent[5]
+        if isinstance(o, dict) and o.get('status') == 'ok':
+            self.accepted.append((r.disp_seq, r.cmd, r.wname.lower(),
+                                  r.props or {}))
+
+    def targets(self):
+        t = dict((wc['name'].lower(), [wc['opts'].get('numprocesses', 1),
+                                       bool(wc['opts'].get('singleton'))])
+                 for wc in self.cfg['watchers'])
+        for (seq, cmd, wname, props) in sorted(self.accepted,
+                                               key=lambda a: a[0]):
+            if wname not in t:
+                continue
+            cur = t[wname]
+            if cmd == 'set':
+                n = (props.get('options') or {}).get('numprocesses')
+                if isinstance(n, int) and not isinstance(n, bool):
+                    cur[0] = max(0, n)
+            else:
+                nb = props.get('nb', 1)
+                if cur[1] or not isinstance(nb, int) or isinstance(nb, bool):
+                    continue       # a singleton is left alone
+                cur[0] = max(0, cur[0] + (nb if cmd == 'incr' else -nb))
+        return t
 
     def on_reply(self, r, ent):
         """freshness: after a completed restart / reload every live worker of
@@ -102,6 +138,15 @@ class C01Episode(Episode):
                 wc.get('marker', name)))
             views[name] = (n, pids)
             self.probes['converged_watchers_checked'] += 1
+            t = self.targets().get(name.lower())
+            if t is not None:
+                self.probes['target_checked_against_accepted_requests'] += 1
+                if t[0] != n:
+                    self.viol('target_differs_from_accepted_requests',
+                              '%s: configured numprocesses is %r, the '
+                              'accepted incr / decr / set requests give %d'
+                              % (name, n, t[0]), once=('t', name),
+                              where='final')
             if n < 0:
                 self.viol('negative_numprocesses', '%s reports numprocesses '
                           '%r' % (name, n))
@@ -163,7 +208,9 @@ class C01(Prop):
             'waits, placed at kernel-call boundaries / loop steps / virtual '
             'times; after the faults stop the daemon must converge within '
             'ceil(np*warmup/check_delay)+3 checks and then be a fixpoint for 5 '
-            'more. non-trivial = a fault fired while an operation was in '
+            'more; the configured numprocesses must be what the accepted '
+            'incr / decr / set requests, applied in dispatch order, give. '
+            'non-trivial = a fault fired while an operation was in '
             'flight; distinct = distinct (event kind, abstract daemon state) '
             'sequence hash')
     chunk = 120
